@@ -4,7 +4,7 @@ import math
 import numpy as np
 
 from .. import gen, opcat
-from ..common import Check, case_rng, import_ws, parse_resp, pmap, run_driver
+from ..common import Check, PmapTimeout, case_rng, import_ws, parse_resp, pmap, run_driver
 
 
 def degenerate_specs(rng, nf, nd):
@@ -137,7 +137,13 @@ def run_check():
     ck.do_audit()
     import_ws()
     n = 27 if ck.tier == "quick" else 300
-    res = pmap(make_case, [(ck.seed, i) for i in range(n)])
+    try:
+        res = pmap(make_case, [(ck.seed, i) for i in range(n)], timeout=900 if ck.tier == "quick" else 2400)
+    except PmapTimeout as e:
+        # the property is also about termination: a public call that never returns on valid input is a violation
+        ck.fail("python_level", f"{e}: some public call on a degenerate spectrum did not return (hang inside the library or its "
+                                "native extension); the native sub-check below looks for the responsible grid", dict(seed=ck.seed), "hang")
+        res = []
     # model side: the totality theorems are about these model calls; run them on the same degenerate inputs
     reqs, keys = [], []
     for recs in res:
